@@ -301,7 +301,7 @@ class Harness:
         ws = self.workers_all()
         live = [w for w in ws if w.is_alive() and not w.is_finalized()]
         if rs == RunState.NOT_INITIALIZED:
-            return "quiet" if not live else "busy"
+            return "quiet" if not any(w.is_alive() for w in ws) else "busy"
         if rs == RunState.ENDED:
             return "quiet" if not any(w.is_alive() for w in ws) else "busy"
         if rs in (RunState.INITIALIZED, RunState.STOPPED):
